@@ -192,6 +192,10 @@ MUTATIONS = [
     "tcp://user:pw@h:1", "tcp://user@h:1", "ws://u:p@h:1/x", "tcp://h:1?a=b&c=d", "tcp://h:1?[", "tcp://h:1?(", "sero://token", "ssh://h:22", "\\\\h\\share",
     "tcp:\\\\h:1", "C:\\x", "c:1", "a:1", "a.b:1", "1.2.3.4:1", "1.2.3.4", "256.1.1.1:1", "tcp://256.1.1.1:1", "ws://256.1.1.1:1/x", "ws://1.2.3:1/x",
     "ws://0x7f.1:1/x", "ws://h:80", "ws://h:443/x", "wss://h:1/x", "ws://h/x", "tcp://h", "tcp://h:", "udp://h:", "udp://h:1/x", "udp://h:1?LFBO",
+    # percent escapes: valid ones, ones that decode to bytes that are not UTF-8, to NUL, to the delimiters themselves
+    "tcp://h:1@%ff", ":4003?%80", "rtlsdr:@%a0", "udp://h:1@LF%C3%28", "tcp://h:1@%C3%A9", "tcp://h:1@%00", "tcp://h:1@%41%42", "tcp://h:1@LF%42O",
+    "tcp://h:1@43.6%2C1.36", "tcp://h:1@43.6,%201.36", "tcp://h%ff:1", "tcp://%ff:1", "tcp://%41:1", "ws://h:1/%ff", "ws://h:1/%00", "ws://h:1/a%2Fb",
+    "tcp://h:1%40LFBO", "tcp://h%3A1", "tcp://h:1@%25", "tcp://h:1@%fe%ff", "tcp://h:1@%ed%a0%80", "tcp://h:1@%f8%88%80%80%80", ":4003@%", ":4003@%f",
     "..", "../x", "/", "//h:1", "//h", "///", "?", "#", "%", "[", "]", "(", ")", "{", "}", "*", "+", "|", "^", "$", "\\", "\"", "'", "`",
 ]
 
@@ -200,7 +204,7 @@ POS_STRINGS = [
     "1e999,1e999", "1e-999,0", "0x10,1", "1_0,2", "1;2", "1 2", "43,6,1,36", "٤٣,١", "1,²", "LFBO", "TLS", "EHAM", "lfbo", "Toulouse", "ZZZZ", "XXXX", "[", "(", "{",
     ")", "]", "}", "*", "+", "?", "\\", "|", "^", "$", ".", ".*", "a{99999}{99999}", "a{1000}{1000}{1000}", "(?P<", "(?i)lfbo", "(?x) L F B O",
     "[[:alpha:]", "\\p{Greek}", "\\p{Foo}", "\\d{4}", "(" * 200, "(" * 200 + ")" * 200, "a" * 10000, "[a-" * 500, "(?:" * 300 + "x" + ")" * 300,
-    "\x00", "\n", "L\x00FBO", "é", "🛩", "\u202e", "43.6,\x00", "1,\n2", "9" * 400 + ",1", "1," + "9" * 400, "0." + "0" * 400 + "1,1",
+    "%ff", "%80", "LF%42O", "%C3%28", "43.6%2C1.36", "\x00", "\n", "L\x00FBO", "é", "🛩", "\u202e", "43.6,\x00", "1,\n2", "9" * 400 + ",1", "1," + "9" * 400, "0." + "0" * 400 + "1,1",
 ]
 
 
@@ -228,6 +232,9 @@ def mutate(rng, s):
     if ops == 0:
         return s[:i] + s[i + 1:]
     if ops == 1:
+        if rng.random() < 0.3:
+            # a percent escape: any byte, mostly ones that are not UTF-8 on their own
+            return s[:i] + "%%%02x" % rng.choice([rng.randrange(256), rng.randrange(0x80, 0x100), 0xFF, 0x00, 0xC3]) + s[i:]
         return s[:i] + rng.choice(":/@?[]()%\\ \x00é*{") + s[i:]
     if ops == 2:
         return s[:i]
